@@ -420,6 +420,17 @@ fn run_exp_while(sh: &mut shell::Shell,
     cr_list
 }
 
+/// `line` without a comment that follows its first word: `break # why` is
+/// `break`. Any other line is returned as it is.
+fn without_trailing_comment(line: &str) -> &str {
+    if let Some(pos) = line.find(char::is_whitespace) {
+        if line[pos..].trim_start().starts_with('#') {
+            return &line[..pos];
+        }
+    }
+    line
+}
+
 fn run_exp(sh: &mut shell::Shell,
            pair_in: Pair<parsers::locust::Rule>,
            args: &Vec<String>,
@@ -435,7 +446,8 @@ fn run_exp(sh: &mut shell::Shell,
 
         let rule = pair.as_rule();
         if rule == parsers::locust::Rule::CMD {
-            if line == "continue" {
+            let word = without_trailing_comment(line);
+            if word == "continue" {
                 if in_loop {
                     return (cr_list, true, false);
                 } else {
@@ -443,7 +455,7 @@ fn run_exp(sh: &mut shell::Shell,
                     continue;
                 }
             }
-            if line == "break" {
+            if word == "break" {
                 if in_loop {
                     return (cr_list, false, true);
                 } else {
